@@ -282,4 +282,38 @@ theorem C03_rule_components (f g : ℝ) (df dg : List Nat → ℝ) (k : Nat) :
     rfl | rfl | rfl | rfl | rfl | rfl | rfl | rfl | rfl | rfl | rfl | rfl | rfl
   all_goals (grad_eval [] <;> first | ring1 | (left; ring1) | (congr 1; ring1) | (split_ifs <;> ring1) | simp | (left; trivial))
 
+/-! ### the variable ruleset: d/dv op(v, v·v) for a scalar variable v (chain rule through both operands) -/
+
+noncomputable def vval (name : String) (v : ℝ) : ℝ :=
+  match variableFam.find? (·.name == name) with
+  | some r => eval (dEnv v 0 (fun _ => 0) (fun _ => 0)) .none (fun _ => 0) r.out []
+  | none => 0
+
+macro "var_eval" "[" extra:Lean.Parser.Tactic.simpLemma,* "]" : tactic =>
+  `(tactic| simp [vval, gval, variableFam, gateaux, List.find?, dEnv, eval, evalB, evalNth, gradChain, mathName, fi, shape, sumRange, FI.dimOf, FI.insert, FI.merge, FI.remove,
+      idxPairs, freeCounts, List.range, List.range.loop, IdxEnv.bind, IdxEnv.set, Idx.resolve, List.zipIdx, $extra,*])
+
+/-- the expansion of diff(op(v, v·v), v) by the variable ruleset is the directional rule with
+    f = v, g = v², f' = 1, g' = 2v — so every `C02_rule_*` theorem applies with F = id, G = (·)² -/
+theorem C04_rule_instances (v : ℝ) :
+    ∀ name ∈ ["sum", "product", "division", "power", "power2", "power3", "powerHalf5", "powerNeg1", "abs", "sqrt", "exp", "ln", "sin", "cos", "tan",
+        "cosh", "sinh", "tanh", "acos", "asin", "atan", "erf", "atan2", "conditional", "conditionalGe", "minValue", "maxValue", "conj", "real", "imag",
+        "sign", "neg", "variable", "posRestricted", "negRestricted"],
+      vval name v = gval name v (v * v) 1 (v + v) := by
+  intro name hn
+  simp only [List.mem_cons, List.mem_nil_iff, or_false] at hn
+  rcases hn with rfl | rfl | rfl | rfl | rfl | rfl | rfl | rfl | rfl | rfl | rfl | rfl | rfl | rfl | rfl | rfl | rfl | rfl | rfl | rfl | rfl | rfl |
+    rfl | rfl | rfl | rfl | rfl | rfl | rfl | rfl | rfl | rfl | rfl | rfl | rfl
+  all_goals (var_eval [] <;> first | ring1 | (left; ring1) | (congr 1; ring1) | (split_ifs <;> ring1) | simp | (left; trivial))
+
+/-- example of the composition: d/dv sin(v) = cos(v), d/dv (v · v²) = 3v² through the product rule -/
+theorem C04_rule_examples (v : ℝ) :
+    HasDerivAt (fun x => Real.sin x) (vval "sin" v) v ∧ HasDerivAt (fun x => x * (x * x)) (vval "product" v) v := by
+  have hid : HasDerivAt (fun x : ℝ => x) 1 v := hasDerivAt_id v
+  constructor
+  · have : vval "sin" v = Real.cos v := by var_eval []
+    rw [this]; exact Real.hasDerivAt_sin v
+  · have : vval "product" v = 1 * (v * v) + v * (1 * v + v * 1) := by var_eval [] <;> ring
+    rw [this]; exact hid.mul (hid.mul hid)
+
 end UflVerif.C02
